@@ -292,9 +292,9 @@ func (x Expr) Get(data any) (results []any) {
 			if (di & descentFlag) == 0 {
 				switch tv := prev.(type) {
 				case map[string]any:
-					// Put prev back and slide fi.
-					stack[len(stack)-1] = prev
-					stack = append(stack, di|descentFlag)
+					// Put prev back with its own index, the one on the stack is
+					// still needed for the siblings of prev.
+					stack = append(stack, prev, di|descentFlag)
 					if int(fi) == len(x)-1 { // last one
 						for _, v = range tv {
 							results = append(results, v)
@@ -318,9 +318,9 @@ func (x Expr) Get(data any) (results []any) {
 						}
 					}
 				case []any:
-					// Put prev back and slide fi.
-					stack[len(stack)-1] = prev
-					stack = append(stack, di|descentFlag)
+					// Put prev back with its own index, the one on the stack is
+					// still needed for the siblings of prev.
+					stack = append(stack, prev, di|descentFlag)
 					if int(fi) == len(x)-1 { // last one
 						results = append(results, tv...)
 					}
@@ -344,9 +344,9 @@ func (x Expr) Get(data any) (results []any) {
 					}
 				case Keyed:
 					keys := tv.Keys()
-					// Put prev back and slide fi.
-					stack[len(stack)-1] = prev
-					stack = append(stack, di|descentFlag)
+					// Put prev back with its own index, the one on the stack is
+					// still needed for the siblings of prev.
+					stack = append(stack, prev, di|descentFlag)
 					if int(fi) == len(x)-1 { // last one
 						for _, k := range keys {
 							v, _ := tv.ValueForKey(k)
@@ -373,9 +373,9 @@ func (x Expr) Get(data any) (results []any) {
 					}
 				case Indexed:
 					size := tv.Size()
-					// Put prev back and slide fi.
-					stack[len(stack)-1] = prev
-					stack = append(stack, di|descentFlag)
+					// Put prev back with its own index, the one on the stack is
+					// still needed for the siblings of prev.
+					stack = append(stack, prev, di|descentFlag)
 					if int(fi) == len(x)-1 { // last one
 						for i := 0; i < size; i++ {
 							results = append(results, tv.ValueAtIndex(i))
@@ -400,9 +400,9 @@ func (x Expr) Get(data any) (results []any) {
 						}
 					}
 				case gen.Object:
-					// Put prev back and slide fi.
-					stack[len(stack)-1] = prev
-					stack = append(stack, di|descentFlag)
+					// Put prev back with its own index, the one on the stack is
+					// still needed for the siblings of prev.
+					stack = append(stack, prev, di|descentFlag)
 					if int(fi) == len(x)-1 { // last one
 						for _, v = range tv {
 							results = append(results, v)
@@ -416,9 +416,9 @@ func (x Expr) Get(data any) (results []any) {
 						}
 					}
 				case gen.Array:
-					// Put prev back and slide fi.
-					stack[len(stack)-1] = prev
-					stack = append(stack, di|descentFlag)
+					// Put prev back with its own index, the one on the stack is
+					// still needed for the siblings of prev.
+					stack = append(stack, prev, di|descentFlag)
 					if int(fi) == len(x)-1 { // last one
 						for _, v = range tv {
 							results = append(results, v)
@@ -1140,9 +1140,9 @@ func (x Expr) FirstFound(data any) (any, bool) {
 			if (di & descentFlag) == 0 {
 				switch tv := prev.(type) {
 				case map[string]any:
-					// Put prev back and slide fi.
-					stack[len(stack)-1] = prev
-					stack = append(stack, di|descentFlag)
+					// Put prev back with its own index, the one on the stack is
+					// still needed for the siblings of prev.
+					stack = append(stack, prev, di|descentFlag)
 					if int(fi) == len(x)-1 { // last one
 						for _, v = range tv {
 							return v, true
@@ -1165,9 +1165,9 @@ func (x Expr) FirstFound(data any) (any, bool) {
 						}
 					}
 				case []any:
-					// Put prev back and slide fi.
-					stack[len(stack)-1] = prev
-					stack = append(stack, di|descentFlag)
+					// Put prev back with its own index, the one on the stack is
+					// still needed for the siblings of prev.
+					stack = append(stack, prev, di|descentFlag)
 					if int(fi) == len(x)-1 { // last one
 						if 0 < len(tv) {
 							return tv[0], true
@@ -1192,9 +1192,9 @@ func (x Expr) FirstFound(data any) (any, bool) {
 					}
 				case Keyed:
 					keys := tv.Keys()
-					// Put prev back and slide fi.
-					stack[len(stack)-1] = prev
-					stack = append(stack, di|descentFlag)
+					// Put prev back with its own index, the one on the stack is
+					// still needed for the siblings of prev.
+					stack = append(stack, prev, di|descentFlag)
 					if int(fi) == len(x)-1 { // last one
 						if 0 < len(keys) {
 							return tv.ValueForKey(keys[0])
@@ -1242,9 +1242,9 @@ func (x Expr) FirstFound(data any) (any, bool) {
 						}
 					}
 				case gen.Object:
-					// Put prev back and slide fi.
-					stack[len(stack)-1] = prev
-					stack = append(stack, di|descentFlag)
+					// Put prev back with its own index, the one on the stack is
+					// still needed for the siblings of prev.
+					stack = append(stack, prev, di|descentFlag)
 					if int(fi) == len(x)-1 { // last one
 						for _, v = range tv {
 							return v, true
@@ -1258,9 +1258,9 @@ func (x Expr) FirstFound(data any) (any, bool) {
 						}
 					}
 				case gen.Array:
-					// Put prev back and slide fi.
-					stack[len(stack)-1] = prev
-					stack = append(stack, di|descentFlag)
+					// Put prev back with its own index, the one on the stack is
+					// still needed for the siblings of prev.
+					stack = append(stack, prev, di|descentFlag)
 					if int(fi) == len(x)-1 { // last one
 						if 0 < len(tv) {
 							return tv[0], true
